@@ -40,7 +40,7 @@ def _uses_of_list(ctx, idx: AstIndex, f: Func, var: str, depth: int, seen: set) 
     for n in ast.walk(f.node):
         if isinstance(n, ast.Subscript) and isinstance(n.value, ast.Name) and n.value.id == var:
             if isinstance(n.slice, ast.Slice):
-                uses.append("header-slice" if n.slice.lower is None else "slice")
+                uses.append("header-slice" if n.slice.lower is None else f"indexed:{norm(n)}" if _mentions_line(n.slice) else "slice")
             elif _mentions_line(n.slice):
                 uses.append(f"indexed:{norm(n)}")
             else:
@@ -96,7 +96,7 @@ def line_model_sites(ctx) -> list[dict]:
             parent = _parent_of(f.node, n)
             uses: list[str] = []
             if isinstance(parent, ast.Subscript) and isinstance(parent.slice, ast.Slice):
-                uses.append("header-slice" if parent.slice.lower is None else "slice")
+                uses.append("header-slice" if parent.slice.lower is None else f"indexed:{norm(parent)}" if _mentions_line(parent.slice) else "slice")
             elif isinstance(parent, ast.Call) and call_name(parent) == "enumerate":
                 start = parent.args[1] if len(parent.args) > 1 else next((k.value for k in parent.keywords if k.arg == "start"), None)
                 uses.append("enumerate-from-1" if isinstance(start, ast.Constant) and start.value == 1 else "enumerate-from-0")
